@@ -20,7 +20,7 @@ def sh(cmd, cwd=None, env=None):
 
 def one(args):
     outdir, k, base = args
-    prefix = "g" if "/rg_" in str(outdir) else "r"  # second batch of refactorings: <id>-g<k>
+    prefix = "g" if "/rg_" in str(outdir) else ("k" if "/rk_" in str(outdir) else "r")  # second / third batch of refactorings: <id>-g<k>, <id>-k<k>
     pid = json.loads((outdir / "property.json").read_text())["id"]
     patch = outdir / f"patch_{k}.diff"
     name = f"{pid}-{prefix}{k}"
